@@ -1,0 +1,37 @@
+// Copyright 2026 foyer Project Authors
+//
+// Licensed under the Apache License, Version 2.0 (the "License");
+// you may not use this file except in compliance with the License.
+// You may obtain a copy of the License at
+//
+//     http://www.apache.org/licenses/LICENSE-2.0
+//
+// Unless required by applicable law or agreed to in writing, software
+// distributed under the License is distributed on an "AS IS" BASIS,
+// WITHOUT WARRANTIES OR CONDITIONS OF ANY KIND, either express or implied.
+// See the License for the specific language governing permissions and
+// limitations under the License.
+
+//! Verification hook (feature `verif` only): schedule points.
+//!
+//! A schedule point marks a place where the calling thread holds no cache lock and is about to enter (or has just
+//! left) a critical section. An out-of-tree harness can install a hook once per process; the hook decides which
+//! thread runs next, so that the order of critical sections of concurrent operations becomes a test input.
+//! Without an installed hook a schedule point does nothing.
+
+use std::sync::OnceLock;
+
+static SCHED_HOOK: OnceLock<fn(&'static str)> = OnceLock::new();
+
+/// Install the schedule-point hook. Only the first call has an effect.
+pub fn set_sched_hook(hook: fn(&'static str)) {
+    let _ = SCHED_HOOK.set(hook);
+}
+
+/// Called by the cache at a schedule point. `site` names the place.
+#[inline]
+pub fn sched_point(site: &'static str) {
+    if let Some(hook) = SCHED_HOOK.get() {
+        hook(site)
+    }
+}
